@@ -554,12 +554,12 @@ func (r *runner) runGen(what string, o tlc.Opts) {
 }
 
 func (d Driver) Run(c *core.Ctx) error {
-	c.Rule = "scenario = lattice polyline (2..K vertices on the (N+1)x(N+1) lattice, open or closed, incl. collinear reversals, repeated and crossing edges) x half width (1/4, 1/2, 1, 3/2 lattice units) printed by spec/Stroke.tla with the exact facts of every sample of a grid (step 1/3 lattice unit) around the path; each is stroked by the real Path.Stroke with 3 cappers x 6 joiners (closed paths: 6 joiners; closed polylines in two forms with the same expectation: implicit closing edge through the builder, and raw data M a L b L c L a z with an explicit last segment and a zero-length Close), resp. offset by +-hw with Path.Offset (closed simple contours), under 2-3 similarity embeddings; evaluations = real Stroke/Offset calls; non-trivial = distinct (polyline, half width) with at least one sample that must be covered and one that must not"
+	c.Rule = "scenario = lattice polyline (2..K vertices on the (N+1)x(N+1) lattice, open or closed, incl. collinear reversals, repeated and crossing edges) x half width (1/4, 1/2, 1, 3/2 lattice units) printed by spec/Stroke.tla with the exact facts of every sample of a grid (step 1/3 lattice unit) around the path; each is stroked by the real Path.Stroke with 3 cappers x 6 joiners (closed paths: 6 joiners; closed polylines in two forms with the same expectation: implicit closing edge through the builder, and raw data M a L b L c L a z with an explicit last segment and a zero-length Close), resp. offset by +-hw with Path.Offset (closed simple contours), under 2-3 similarity embeddings; curved part (spec/StrokeCurves.tla): lattice cubics/quads incl. two-inflection serpentines, curve/line corners and 2:1 ellipse arcs (rotated by the 3-4-5 angle or not) stroked with round cap + round join, grid samples near the boundary of the neighbourhood classified exactly by spec/Trace_StrokeCurves.tla; evaluations = real Stroke/Offset calls; non-trivial = distinct (polyline, half width) with at least one sample that must be covered and one that must not"
 	c.Assumptions = []string{
 		"classification tolerance Tol = 1/12 lattice unit on both sides of distance hw (covers snap rounding and the oracle's 64-chord flattening of arcs: < 5e-4 hw)",
 		"join allowance is a disc around the vertex: limit*hw (+Tol) for miter/arcs, (limit+1)*hw for the clip variants (calibrated, DESIGN section 5 C04), none for bevel/round; square caps: hw*sqrt(2) around the end",
 		"scenarios whose polyline the path builder changes (collinear reversal merged: C10 finding) are skipped and counted (skipped_builder_changed)",
-		"Bezier and arc strokes are not covered by this check"}
+		"Bezier and arc strokes: only round cap + round join, by the weak classification (way-points, chord gap) of spec/StrokeCurves.tla"}
 	r := &runner{c: c}
 	stop := make(chan struct{})
 	go func() { // watchdog
